@@ -495,8 +495,9 @@ func (fx *FuncCtx) builtinAppend(st *State, args []*Val, resT types.Type, pos to
 		q, q, q, s.T, row, q, oldRow, s.T, q, row, q))
 	if !moreIsStr {
 		srcRow := "(select " + h + " (sl_arr " + more.T + "))"
-		fx.emit(fmt.Sprintf("(assert (forall ((%s Int)) (! (=> (and (<= 0 %s) (< %s %s)) (= (select %s (+ (sl_len %s) %s)) (select %s (+ (sl_off %s) %s)))) :pattern ((select %s (+ (sl_len %s) %s))))))",
-			q, q, q, moreLen, row, s.T, q, srcRow, more.T, q, row, s.T, q))
+		// appended part, indexed by the position in the result (so that E-matching finds it from row[k])
+		fx.emit(fmt.Sprintf("(assert (forall ((%s Int)) (! (=> (and (<= (sl_len %s) %s) (< %s %s)) (= (select %s %s) (select %s (+ (sl_off %s) (- %s (sl_len %s)))))) :pattern ((select %s %s)))))",
+			q, s.T, q, q, newLen, row, q, srcRow, more.T, q, s.T, row, q))
 	}
 	fx.heapSet(st, name, cs, "(store "+h+" "+r+" "+row+")")
 	capT := fx.declare("acap", "Int")
@@ -613,9 +614,18 @@ func (fx *FuncCtx) applyContract(st *State, ct *Contract, names []string, args [
 			}
 		}
 		t := fx.evalClause(c, envPost)
-		fx.assume(st, t)
+		// callee postconditions are named call.<callee>.<label>; a `uses` list with -calls hides the ones it does not name
+		fx.assumeTagged(st, t, "call."+shortCallee(short)+"."+c.Label)
 	}
 	return res
+}
+
+// shortCallee: "gofakes3.(*bucketUploads).remove" -> "remove", "skiplist.(*SkipList).Get" -> "Get"
+func shortCallee(k string) string {
+	if i := strings.LastIndex(k, "."); i >= 0 {
+		return k[i+1:]
+	}
+	return k
 }
 
 // havocLocation forgets the value of a location named in a modifies clause.
@@ -767,7 +777,7 @@ func (fx *FuncCtx) atReturn(st *State, ins *ssa.Return, vals []*Val) {
 		henv2 := fx.clauseEnv(st, fx.entryAfterReq, vals)
 		henv2.fn = fx.fn
 		henv2.at = fx.curBlock
-		fx.emit("(assert " + imp(st.R, fx.evalClause(c, henv2)) + ") ;@hyp:hint." + c.Label)
+		fx.emit("(assert " + imp(st.R, fx.evalClause(c, henv2)) + fmt.Sprintf(") ;@hyp:hint.%s@ret%d", c.Label, k))
 	}
 	for _, c := range fx.ct.Ensures {
 		t := fx.evalGoal(c, env)
@@ -1208,8 +1218,15 @@ func (e *Env) localsInScope(x ast.Expr) bool {
 				}
 			}
 		}
-		if declared && e.lookupLocal(id.Name) == nil {
-			ok = false
+		if declared {
+			a := e.lookupLocal(id.Name)
+			if a == nil {
+				ok = false
+			} else if !a.Heap {
+				if _, has := e.st.Cells[a]; !has {
+					ok = false // not assigned on this path
+				}
+			}
 		}
 		return true
 	})
